@@ -524,7 +524,10 @@ impl fmt::Display for MatrixUri {
 
         if let Some(action) = self.action() {
             f.write_str(if first { "?action=" } else { "&action=" })?;
-            f.write_str(action.as_str())?;
+            // A custom action can be any string, so it needs to be encoded as a query value.
+            for part in form_urlencoded::byte_serialize(action.as_str().as_bytes()) {
+                f.write_str(part)?;
+            }
         }
 
         Ok(())
